@@ -1,6 +1,7 @@
 package props
 
 import (
+	"encoding/json"
 	"fmt"
 	"strings"
 
@@ -177,6 +178,15 @@ func init() {
 			}
 			return &c02Case{P: prog}
 		})
+		if !c.Quick() && c.Shard == 0 {
+			_, side := nativeFuzz(c, "FuzzExecWild", 120)
+			for _, js := range side {
+				var cs c02Case
+				if json.Unmarshal([]byte(js), &cs) == nil && cs.P != nil {
+					prog.Check(c, &cs)
+				}
+			}
+		}
 	}
 	Register(p)
 }
